@@ -11,6 +11,7 @@ import (
 	"sort"
 
 	"github.com/DDP-Projekt/Kompilierer/src/ast"
+	"github.com/DDP-Projekt/Kompilierer/src/ast/annotators"
 	"github.com/DDP-Projekt/Kompilierer/src/ddperror"
 	"github.com/DDP-Projekt/Kompilierer/src/parser"
 )
@@ -23,6 +24,7 @@ type parseReq struct {
 	Render   bool              `json:"render"`   // also run every diagnostic through ddperror.MakeAdvancedHandler
 	Main     string            `json:"main"`
 	Dump     []string          `json:"dump"` // extra observables: "calls", "lits", "ast", "decls"
+	Annotate bool              `json:"annotate"` // run the constant-parameter annotator (as kddp does at -O 2) before dumping
 	Keep     bool              `json:"keep"`
 }
 
@@ -151,7 +153,11 @@ func doParse(req *parseReq) (resp parseResp) {
 	}()
 	main := filepath.Join(dir, req.Main)
 	modules := map[string]*ast.Module{}
-	mod, perr := parser.Parse(parser.Options{FileName: main, Modules: modules, ErrorHandler: handler})
+	popts := parser.Options{FileName: main, Modules: modules, ErrorHandler: handler}
+	if req.Annotate {
+		popts.Annotators = []ast.Annotator{&annotators.ConstFuncParamAnnotator{}}
+	}
+	mod, perr := parser.Parse(popts)
 	if perr != nil {
 		resp.Result = "error"
 		resp.Err = perr.Error()
